@@ -25,14 +25,14 @@ theorem stepThr_isSome {s : Sys} {t : Nat} {th : Thr} (h1 : th.pc ≠ .done)
     cases s.q with
     | cons r q' => simp
     | nil => cases s.sock <;> simp
-  | requeue => simp only [stepThr, hpc]; cases th.got <;> simp
+  | requeue => simp [stepThr, hpc]
   | kaWait =>
     simp only [stepThr, hpc]
     rcases h3 hpc with h | h
     · simp [h]
     · split
       · rfl
-      · simp [h]
+      · simp
   | await => simp [stepThr, hpc, h4 hpc]
   | joinKa => simp [stepThr, hpc, h5 hpc]
   | _ => simp [stepThr, hpc]
@@ -110,20 +110,49 @@ theorem deadlock_free {s : Sys} (hi : Inv s) (ht : Tear s) {t0 : Nat} {th0 : Thr
       apply Classical.byContradiction
       intro h; exact hJ ⟨hp, h⟩
 
-/-- Upper bound on the steps left in the current phase. -/
-def rank (xl : Nat) : PC → Nat
-  | .done => 0 | .actStore => 1 | .kaWait => 1 | .release => 2 | .requeue => 3 | .recv => 4 | .send => 5
-  | .ssHdr k => k + 6
-  | .ssWrap => xl + 7 | .ssChk => xl + 8 | .ssStore => xl + 9 | .ssLoad => xl + 10 | .actLoad => xl + 11
-  | .lkHdr => xl + 12 | .lkStore => xl + 13 | .lkLoad => xl + 14
-  | .acquire => xl + 15 | .hdrLoad => xl + 16 | .incStore => xl + 17 | .idle => xl + 18
-  | .chkAct => xl + 19 | .joinKa => xl + 20 | .stopSet => xl + 21 | .await => xl + 22
+/-- Budget of one attempt: packing (`xl + 6` steps), the transmission, and `M + 1` read / filter pairs. -/
+def attLen (xl M : Nat) : Nat := xl + 2 * M + 10
+
+/-- Above every program point inside an attempt, whatever the retry counters. -/
+def top (xl M : Nat) : Nat := 3 + (M + 1) * attLen xl M
+
+/-- Upper bound on the steps left in the current phase: inside the retry loop, (attempts still possible after
+this one) × (budget of an attempt) + (steps left in this attempt, the reads still possible included). -/
+def rank (xl M : Nat) (th : Thr) : Nat :=
+  match th.pc with
+  | .done => 0 | .actStore => 1 | .kaWait => 1 | .release => 2
+  | .requeue => 3 + (M - th.retry) * attLen xl M + (2 * (M - th.rretry) + 1)
+  | .recv => 3 + (M - th.retry) * attLen xl M + (2 * (M - th.rretry) + 2)
+  | .send => 3 + (M - th.retry) * attLen xl M + (2 * M + 3)
+  | .ssHdr k => 3 + (M - th.retry) * attLen xl M + (2 * M + 4 + k)
+  | .ssWrap => 3 + (M - th.retry) * attLen xl M + (2 * M + 5 + xl)
+  | .ssChk => 3 + (M - th.retry) * attLen xl M + (2 * M + 6 + xl)
+  | .ssStore => 3 + (M - th.retry) * attLen xl M + (2 * M + 7 + xl)
+  | .ssLoad => 3 + (M - th.retry) * attLen xl M + (2 * M + 8 + xl)
+  | .actLoad => 3 + (M - th.retry) * attLen xl M + (2 * M + 9 + xl)
+  | .lkHdr => top xl M | .lkStore => top xl M + 1 | .lkLoad => top xl M + 2
+  | .acquire => top xl M + 3 | .hdrLoad => top xl M + 4 | .incStore => top xl M + 5 | .idle => top xl M + 6
+  | .chkAct => top xl M + 7 | .joinKa => top xl M + 8 | .stopSet => top xl M + 9 | .await => top xl M + 10
+
+/-- length budget of one call -/
+def callLen (xl M : Nat) : Nat := top xl M + 11
 
 /-- calls still to begin (keep-alive: intervals that may still elapse) × length of a call + steps
 left in the current phase -/
-def work (xl : Nat) (th : Thr) : Nat := th.todo * (xl + 23) + rank xl th.pc
+def work (xl M : Nat) (th : Thr) : Nat := th.todo * callLen xl M + rank xl M th
 
-def measure (s : Sys) : Nat := (s.thr.map (work s.xl)).sum
+def measure (s : Sys) : Nat := (s.thr.map (work s.xl s.par.maxRetries)).sum
+
+theorem att_bound (xl M r : Nat) : 3 + (M - r) * attLen xl M + attLen xl M ≤ top xl M := by
+  have h : (M - r) * attLen xl M ≤ M * attLen xl M := Nat.mul_le_mul_right _ (Nat.sub_le _ _)
+  simp only [top, Nat.add_mul, Nat.one_mul]
+  omega
+
+theorem retry_dec (M r A b c : Nat) (h : r + 1 ≤ M) (hb : b < A + c) :
+    (M - (r + 1)) * A + b < (M - r) * A + c := by
+  have : M - r = (M - (r + 1)) + 1 := by omega
+  rw [this, Nat.add_mul, Nat.one_mul]
+  omega
 
 theorem sum_set {f : Thr → Nat} {l : List Thr} {t : Nat} {a b : Thr} (h : l[t]? = some a) :
     ((l.set t b).map f).sum + f a = (l.map f).sum + f b := by
@@ -144,9 +173,10 @@ theorem mul_pred_lt (n L a b : Nat) (hn : n ≠ 0) (hb : b < L + a) : (n - 1) * 
   simp only [Nat.add_mul, Nat.one_mul]
   omega
 
-theorem work_afterCall (xl : Nat) (th : Thr) (r : CallRes) :
-    work xl (afterCall th r) < th.todo * (xl + 23) + 2 := by
-  have hle : (th.todo - 1) * (xl + 23) ≤ th.todo * (xl + 23) := Nat.mul_le_mul_right _ (Nat.sub_le _ _)
+theorem work_afterCall (xl M : Nat) (th : Thr) (r : CallRes) :
+    work xl M (afterCall th r) < th.todo * callLen xl M + 2 := by
+  have hle : (th.todo - 1) * callLen xl M ≤ th.todo * callLen xl M := Nat.mul_le_mul_right _ (Nat.sub_le _ _)
+  have hL : callLen xl M = top xl M + 11 := rfl
   cases hk : th.kind with
   | keepAlive =>
     simp only [work, afterCall, nextPc, hk, if_true]
@@ -156,7 +186,7 @@ theorem work_afterCall (xl : Nat) (th : Thr) (r : CallRes) :
     by_cases h0 : th.todo - 1 = 0
     · simp [h0, rank]
     · rw [if_neg (by simp), if_neg h0]
-      exact mul_pred_lt _ _ _ _ (by omega) (by simp [rank])
+      exact mul_pred_lt _ _ _ _ (by omega) (by simp [rank]; omega)
   | closer =>
     simp only [work, afterCall, nextPc, hk]
     rw [if_neg (by simp)]
@@ -169,13 +199,17 @@ theorem work_afterCall (xl : Nat) (th : Thr) (r : CallRes) :
       · rw [if_neg h0]
         by_cases h1 : th.todo - 1 = 1
         · rw [if_pos h1]
-          exact mul_pred_lt _ _ _ _ (by omega) (by simp [rank])
+          exact mul_pred_lt _ _ _ _ (by omega) (by simp [rank]; omega)
         · rw [if_neg h1]
-          exact mul_pred_lt _ _ _ _ (by omega) (by simp [rank])
+          exact mul_pred_lt _ _ _ _ (by omega) (by simp [rank]; omega)
 
 /-- What one step does to the stepping thread's own record: its work decreases. -/
 theorem stepThr_dec {s s' : Sys} {t : Nat} {th : Thr} (h : stepThr s t th = some s') :
-    ∃ th', s'.thr = s.thr.set t th' ∧ s'.xl = s.xl ∧ work s.xl th' < work s.xl th := by
+    ∃ th', s'.thr = s.thr.set t th' ∧ s'.xl = s.xl ∧ s'.par = s.par ∧
+      work s.xl s.par.maxRetries th' < work s.xl s.par.maxRetries th := by
+  have hb := att_bound s.xl s.par.maxRetries th.retry
+  have hA : attLen s.xl s.par.maxRetries = s.xl + 2 * s.par.maxRetries + 10 := rfl
+  have hL : callLen s.xl s.par.maxRetries = top s.xl s.par.maxRetries + 11 := rfl
   cases hpc : th.pc with
   | done => simp [stepThr, hpc] at h
   | acquire =>
@@ -183,63 +217,81 @@ theorem stepThr_dec {s s' : Sys} {t : Nat} {th : Thr} (h : stepThr s t th = some
     | some x => simp [stepThr, hpc, hl] at h
     | none =>
       simp [stepThr, hpc, hl] at h; subst h
-      exact ⟨_, rfl, rfl, by simp [work, rank, hpc]⟩
+      exact ⟨_, rfl, rfl, rfl, by simp [work, rank, hpc]; omega⟩
   | idle =>
     cases hsl : s.seqLocked with
     | false =>
       simp [stepThr, hpc, hsl] at h; subst h
-      exact ⟨_, rfl, rfl, by simp [work, rank, hpc]⟩
+      exact ⟨_, rfl, rfl, rfl, by simp [work, rank, hpc]⟩
     | true =>
       cases hl : s.lock with
       | some x => simp [stepThr, hpc, hsl, hl] at h
       | none =>
         simp [stepThr, hpc, hsl, hl] at h; subst h
-        exact ⟨_, rfl, rfl, by simp [work, rank, hpc]⟩
+        exact ⟨_, rfl, rfl, rfl, by simp [work, rank, hpc]⟩
+  | lkHdr =>
+    simp [stepThr, hpc] at h; subst h
+    exact ⟨_, rfl, rfl, rfl, by simp [work, rank, hpc]; omega⟩
   | actLoad =>
     simp [stepThr, hpc] at h; subst h
-    refine ⟨_, rfl, rfl, ?_⟩
-    simp only [work, hpc]; split <;> simp [rank] <;> omega
+    refine ⟨_, rfl, rfl, rfl, ?_⟩
+    simp only [work]; split <;> simp [rank, hpc] <;> omega
   | ssHdr k =>
     cases k with
     | zero =>
       simp [stepThr, hpc] at h; subst h
-      exact ⟨_, rfl, rfl, by simp [work, rank, hpc]⟩
+      exact ⟨_, rfl, rfl, rfl, by simp [work, rank, hpc]⟩
     | succ k =>
       simp [stepThr, hpc] at h; subst h
-      exact ⟨_, rfl, rfl, by simp [work, rank, hpc]⟩
+      exact ⟨_, rfl, rfl, rfl, by simp [work, rank, hpc]⟩
   | ssChk =>
     simp [stepThr, hpc] at h; subst h
-    refine ⟨_, rfl, rfl, ?_⟩
-    simp only [work, hpc]; split <;> simp [rank] <;> omega
+    refine ⟨_, rfl, rfl, rfl, ?_⟩
+    simp only [work]; split <;> simp [rank, hpc] <;> omega
+  | send =>
+    simp [stepThr, hpc] at h; subst h
+    exact ⟨_, rfl, rfl, rfl, by simp [work, rank, hpc]⟩
   | recv =>
     simp only [stepThr, hpc] at h
     cases hq : s.q with
     | cons r q' =>
       simp [hq] at h; subst h
-      refine ⟨_, rfl, rfl, ?_⟩
-      simp only [work, hpc]; split <;> simp [rank]
+      refine ⟨_, rfl, rfl, rfl, ?_⟩
+      simp only [work]; split <;> simp [rank, hpc] <;> omega
     | nil =>
       cases hsk : s.sock with
       | cons r sk =>
         simp [hq, hsk] at h; subst h
-        refine ⟨_, rfl, rfl, ?_⟩
-        simp only [work, hpc]; split <;> simp [rank]
+        refine ⟨_, rfl, rfl, rfl, ?_⟩
+        simp only [work]; split <;> simp [rank, hpc] <;> omega
       | nil =>
         simp [hq, hsk] at h; subst h
-        exact ⟨_, rfl, rfl, by simp [work, rank, hpc]⟩
+        refine ⟨_, rfl, rfl, rfl, ?_⟩
+        by_cases hr : th.retry + 1 ≤ s.par.maxRetries
+        · have key : ∀ b, b < attLen s.xl s.par.maxRetries + (2 * (s.par.maxRetries - th.rretry) + 2) →
+              3 + (s.par.maxRetries - (th.retry + 1)) * attLen s.xl s.par.maxRetries + b <
+              3 + (s.par.maxRetries - th.retry) * attLen s.xl s.par.maxRetries + (2 * (s.par.maxRetries - th.rretry) + 2) := by
+            intro b hb'
+            have := retry_dec s.par.maxRetries th.retry (attLen s.xl s.par.maxRetries) b
+              (2 * (s.par.maxRetries - th.rretry) + 2) hr hb'
+            omega
+          cases hp : s.par.packOnce with
+          | true =>
+            simp only [work, rank, hpc, hr, if_true, Nat.add_lt_add_iff_left]
+            exact key _ (by omega)
+          | false =>
+            simp only [work, rank, hpc, hr, if_true, Nat.add_lt_add_iff_left]
+            exact key _ (by omega)
+        · simp [work, rank, hpc, hr]
+          omega
   | requeue =>
-    simp only [stepThr, hpc] at h
-    cases hg : th.got with
-    | some r =>
-      simp [hg] at h; subst h
-      exact ⟨_, rfl, rfl, by simp [work, rank, hpc]⟩
-    | none =>
-      simp [hg] at h; subst h
-      exact ⟨_, rfl, rfl, by simp [work, rank, hpc]⟩
+    simp [stepThr, hpc] at h; subst h
+    refine ⟨_, rfl, rfl, rfl, ?_⟩
+    simp only [work]; split <;> simp [rank, hpc] <;> omega
   | release =>
     simp [stepThr, hpc] at h; subst h
-    refine ⟨_, rfl, rfl, ?_⟩
-    have := work_afterCall s.xl th (match th.got with
+    refine ⟨_, rfl, rfl, rfl, ?_⟩
+    have := work_afterCall s.xl s.par.maxRetries th (match th.got with
       | some r => CallRes.ok th.mine r.serial | none => CallRes.retryError th.mine)
     simp only [work, hpc, rank] at this ⊢
     exact this
@@ -247,38 +299,38 @@ theorem stepThr_dec {s s' : Sys} {t : Nat} {th : Thr} (h : stepThr s t th = some
     simp only [stepThr, hpc] at h
     split at h
     · simp at h; subst h
-      exact ⟨_, rfl, rfl, by simp [work, rank, hpc]⟩
+      exact ⟨_, rfl, rfl, rfl, by simp [work, rank, hpc]⟩
     · split at h
       · cases h
       · rename_i h0
         simp at h; subst h
-        refine ⟨_, rfl, rfl, ?_⟩
+        refine ⟨_, rfl, rfl, rfl, ?_⟩
         simp only [work, hpc, rank]
         exact mul_pred_lt _ _ _ _ h0 (by omega)
   | await =>
     simp only [stepThr, hpc] at h
     split at h
     · simp at h; subst h
-      refine ⟨_, rfl, rfl, ?_⟩
-      simp only [work, hpc]; split <;> simp [rank]
+      refine ⟨_, rfl, rfl, rfl, ?_⟩
+      simp only [work]; split <;> simp [rank, hpc]
     · cases h
   | stopSet =>
     simp [stepThr, hpc] at h; subst h
-    refine ⟨_, rfl, rfl, ?_⟩
-    simp only [work, hpc, Sys.upd]; split <;> simp [rank]
+    refine ⟨_, rfl, rfl, rfl, ?_⟩
+    simp only [work]; split <;> simp [rank, hpc]
   | joinKa =>
     simp only [stepThr, hpc] at h
     split at h
     · simp at h; subst h
-      exact ⟨_, rfl, rfl, by simp [work, rank, hpc]⟩
+      exact ⟨_, rfl, rfl, rfl, by simp [work, rank, hpc]⟩
     · cases h
   | chkAct =>
     simp [stepThr, hpc] at h; subst h
-    refine ⟨_, rfl, rfl, ?_⟩
-    simp only [work, hpc]; split <;> simp [rank] <;> omega
+    refine ⟨_, rfl, rfl, rfl, ?_⟩
+    simp only [work]; split <;> simp [rank, hpc] <;> omega
   | _ =>
     simp [stepThr, hpc] at h; subst h
-    exact ⟨_, rfl, rfl, by simp [work, rank, hpc]⟩
+    exact ⟨_, rfl, rfl, rfl, by simp [work, rank, hpc]⟩
 
 /-- Every step strictly decreases the measure: no schedule makes more than `measure (init c)`
 effective steps. -/
@@ -288,10 +340,28 @@ theorem step_decreases {s s' : Sys} {t : Nat} (h : step s t = some s') : measure
   | none => simp [hget] at h
   | some th =>
     simp [hget] at h
-    obtain ⟨th', h1, h2, h3⟩ := stepThr_dec h
-    have := sum_set (f := work s.xl) (b := th') hget
-    simp only [measure, h1, h2]
+    obtain ⟨th', h1, h2, h2', h3⟩ := stepThr_dec h
+    have := sum_set (f := work s.xl s.par.maxRetries) (b := th') hget
+    simp only [measure, h1, h2, h2']
     omega
+
+/-- The retry budget, the loss plan and the packing variant are constants of a run. -/
+theorem step_par {s s' : Sys} {t : Nat} (h : step s t = some s') : s'.par = s.par := by
+  unfold step at h
+  cases hget : s.thr[t]? with
+  | none => simp [hget] at h
+  | some th =>
+    simp [hget] at h
+    exact (stepThr_dec h).choose_spec.2.2.1
+
+theorem run_par (s : Sys) (sched : List Nat) : (run s sched).par = s.par := by
+  induction sched generalizing s with
+  | nil => rfl
+  | cons t rest ih =>
+    simp only [run, List.foldl_cons]
+    cases hs : step s t with
+    | none => exact ih s
+    | some s' => exact (ih s').trans (step_par hs)
 
 /-- What one step does to the stepping thread's record: the kind is kept; a worker either stays in its
 call, or finishes one call. -/
@@ -353,10 +423,12 @@ theorem stepThr_kind {s s' : Sys} {t : Nat} {th : Thr} (ht : Tear s) (hget : s.t
         simp only []; split <;> simp
       | nil =>
         simp [hq, hsk] at h; subst h
-        exact ⟨_, rfl, rfl, fun _ => Or.inl ⟨rfl, rfl, by simp⟩⟩
+        refine ⟨_, rfl, rfl, fun _ => Or.inl ⟨rfl, rfl, ?_⟩⟩
+        simp only []; (repeat' split) <;> simp
   | requeue =>
     simp [stepThr, hpc] at h; subst h
-    exact ⟨_, rfl, rfl, fun _ => Or.inl ⟨rfl, rfl, by simp⟩⟩
+    refine ⟨_, rfl, rfl, fun _ => Or.inl ⟨rfl, rfl, ?_⟩⟩
+    simp only []; split <;> simp
   | release =>
     simp [stepThr, hpc] at h; subst h
     refine ⟨_, rfl, rfl, fun hk => Or.inr ⟨?_, by simp [afterCall], ?_⟩⟩
@@ -493,19 +565,22 @@ theorem init_get_app {c : Cfg} {t : Nat} {p : Nat × Nat} (hp : c.threads[t]? = 
   simp [init, List.getElem?_append, hlt, hg]
 
 /-- In a state where no thread can move, every thread is finished (the keep-alive loop: finished or
-asleep for good), each call made returned the reply to the datagram that same thread transmitted,
-every application thread other than the closing one has made all the calls it was asked to make, and
-if a thread closes the session: Close Session is on the wire, the session is deactivated and every
-thread — the keep-alive too — has terminated. -/
+asleep for good), each call made returned the reply to the datagram that same thread transmitted — or
+failed after a time-out on a datagram whose reply the network lost —, every application thread other than
+the closing one has made all the calls it was asked to make, and if a thread closes the session: Close Session
+is on the wire, every thread — the keep-alive too — has terminated, and the session is deactivated unless a
+call of the closing thread failed. -/
 theorem terminal_complete {c : Cfg} {s : Sys} (hi : Inv s) (ht : Tear s) (hc : Close s) (ha : Acc c s)
     (hterm : ∀ t, step s t = none) :
     (∀ (t : Nat) (th : Thr), s.thr[t]? = some th → parked s th ∧
-      ∀ r ∈ th.results, ∃ n, r = .ok n n ∧ sentBy s.wireChron t n = true) ∧
+      ∀ r ∈ th.results, (∃ n, r = .ok n n ∧ sentBy s.wireChron t n = true) ∨
+        (∃ n, r = .retryError n ∧ timedOut s.wireChron t n = true ∧ lostAt s.par.loss n = true)) ∧
     (∀ (t : Nat) (p : Nat × Nat), c.threads[t]? = some p → c.closer ≠ some t →
       ∃ th, s.thr[t]? = some th ∧ th.pc = .done ∧ th.results.length = p.1) ∧
     (∀ (t : Nat) (p : Nat × Nat), c.threads[t]? = some p → c.closer = some t →
-      s.activated = false ∧ (monitor s.wireChron).closed = true ∧
-      ∀ (t' : Nat) (th' : Thr), s.thr[t']? = some th' → th'.pc = .done) := by
+      (monitor s.wireChron).closed = true ∧
+      (∀ (t' : Nat) (th' : Thr), s.thr[t']? = some th' → th'.pc = .done) ∧
+      (s.activated = false ∨ ∃ th, s.thr[t]? = some th ∧ ∃ r ∈ th.results, r.isOk = false)) := by
   have hpark : ∀ (t : Nat) (th : Thr), s.thr[t]? = some th → parked s th := by
     intro t th hget
     apply Classical.byContradiction
@@ -517,8 +592,9 @@ theorem terminal_complete {c : Cfg} {s : Sys} (hi : Inv s) (ht : Tear s) (hc : C
   · intro t th hget
     refine ⟨hpark t th hget, ?_⟩
     intro r hr
-    obtain ⟨n, h1, h2⟩ := hi.res t _ hget r hr
-    exact ⟨n, h1, by rw [Sys.wireChron, sentBy_reverse]; exact h2⟩
+    rcases hi.res t _ hget r hr with ⟨n, h1, h2⟩ | ⟨n, h1, _, h3, h4⟩
+    · exact Or.inl ⟨n, h1, by rw [Sys.wireChron, sentBy_reverse]; exact h2⟩
+    · exact Or.inr ⟨n, h1, by rw [Sys.wireChron, timedOut_reverse]; exact h3, h4⟩
   rotate_left
   · intro t p hp hcl
     have hk := ha.kinds t
@@ -535,10 +611,17 @@ theorem terminal_complete {c : Cfg} {s : Sys} (hi : Inv s) (ht : Tear s) (hc : C
         · exact h
         · have := ht.kaPc _ _ hget h
           rw [hw] at this; cases this
-      have hact := hc.doneDeact _ _ hget hw hd
-      refine ⟨hact, ?_, ht.deact hact⟩
-      rw [Sys.wireChron, ← monOf_eq_monitor]
-      exact hc.deactClosed hact
+      obtain ⟨hact, hclosed, hclosing⟩ := hc.doneDeact _ _ hget hw hd
+      refine ⟨?_, ?_, ?_⟩
+      · rw [Sys.wireChron, ← monOf_eq_monitor]
+        exact hclosed
+      · intro t' th' h'
+        by_cases e : t' = t
+        · subst e
+          rw [hget] at h'; injection h' with h'; subst h'
+          exact hd
+        · exact ht.late _ _ hget hclosing _ _ h' e
+      · exact hact.imp id (fun h => ⟨th, rfl, h⟩)
   · intro t p hp hnc
     have hk := ha.kinds t
     rw [init_get_app hp] at hk
